@@ -112,6 +112,10 @@ impl ValueReader<ReadPos<BufReader<File>>> {
     }
 }
 
+/// Maximum size of buffer that [`ValueReader::read_bytes`] allocates without
+/// checking first that the bytes to be read exist.
+const MAX_UNCHECKED_ALLOC: usize = 1 << 20;
+
 impl<R: BufRead + Seek + Position> ReadValue for ValueReader<R> {
     type Types = OwnedValues;
 
@@ -136,6 +140,15 @@ impl<R: BufRead + Seek + Position> ReadValue for ValueReader<R> {
         &mut self,
         len: usize,
     ) -> Result<<Self::Types as FieldTypes>::Bytes, ProtobufError> {
+        // `len` comes from the input and may be much larger than the number
+        // of bytes which remain. Before allocating a large buffer, check that
+        // the bytes exist, unless they are already in the reader's buffer.
+        if len > MAX_UNCHECKED_ALLOC && len > self.inner.fill_buf()?.len() {
+            self.skip(len)?;
+            // `skip` succeeded, so `len` fits in an `i64`.
+            self.inner.seek_relative(-(len as i64))?;
+        }
+
         let mut buf = vec![0; len];
         self.inner.read_exact(&mut buf)?;
         Ok(buf)
@@ -371,7 +384,9 @@ impl<'a, R: ReadValue> ReadValue for LimitReader<'a, R> {
 
 #[cfg(test)]
 mod tests {
-    use super::{LimitReader, ReadValue, ValueReader};
+    use std::io::{BufReader, Cursor};
+
+    use super::{LimitReader, ReadPos, ReadValue, ValueReader};
     use crate::protobuf::ErrorKind;
     use crate::protobuf::varint::encode_varint;
 
@@ -414,6 +429,41 @@ mod tests {
     #[test]
     fn test_value_reader() {
         test_read_value(|buf| ValueReader::from_buf(buf));
+    }
+
+    /// Create a reader which behaves like a file reader with a small buffer.
+    fn small_buf_reader(data: Vec<u8>) -> ValueReader<ReadPos<BufReader<Cursor<Vec<u8>>>>> {
+        ValueReader::new(ReadPos::new(BufReader::with_capacity(16, Cursor::new(data))))
+    }
+
+    #[test]
+    fn test_read_bytes_exceeds_input() {
+        // Lengths which are much larger than the input. Allocating a buffer
+        // of this size would fail.
+        for len in [1 << 40, 1 << 62, (1 << 63) - 1, 1 << 63, usize::MAX] {
+            let mut reader = ValueReader::from_buf([1, 2, 3, 4]);
+            assert!(reader.read_bytes(len).is_err());
+
+            let mut reader = ValueReader::from_buf([1, 2, 3, 4]);
+            assert!(reader.read_string(len).is_err());
+
+            let mut reader = small_buf_reader(vec![1, 2, 3, 4]);
+            assert!(reader.read_bytes(len).is_err());
+        }
+    }
+
+    #[test]
+    fn test_read_large_bytes() {
+        // Value that is larger than the reader's buffer, and large enough that
+        // the length is checked before allocating.
+        let len = (1 << 20) + 5;
+        let data: Vec<u8> = (0..len + 8).map(|i| i as u8).collect();
+
+        let mut reader = small_buf_reader(data.clone());
+        assert_eq!(reader.read_i32().unwrap().to_le_bytes(), data[..4]);
+        assert_eq!(reader.read_bytes(len).unwrap(), data[4..4 + len]);
+        assert_eq!(reader.position(), 4 + len as u64);
+        assert_eq!(reader.read_i32().unwrap().to_le_bytes(), data[4 + len..]);
     }
 
     #[test]
